@@ -9,22 +9,28 @@ CLAIMED = {
          'param/variable/put_variable/sow/perturb/make_rng with their error classes, counters shared per scope path, autoname cursor, repeated calls of an instance, int64 arithmetic) as a '
          'fuelled interpreter of a module-program language. Proved for every program, filter, variables and input: collections not selected by `mutable` come out exactly as they went in, no '
          'collection disappears, what apply returns are exactly the final collections matching `mutable`; a write to an immutable collection is EModifyScope, an uninitialisable parameter '
-         'raises, sow into an immutable collection is a no-op. Tied to /repo per run: random programs through real Modules (init, init_with_output, apply, 1-3 repeats, dict/FrozenDict), '
+         'raises, sow into an immutable collection is a no-op; observation is inert - for a collection used by sow only, taking it out of `mutable` gives the same output and the same '
+         'contents of every other collection (a two-run non-interference simulation; the converse is refuted, as in the code: a sown name is reserved only when something is stored); perturb '
+         'without a perturbation collection returns its argument. Tied to /repo per run: random programs through real Modules (init, init_with_output, apply, 1-3 repeats, dict/FrozenDict), '
          'outputs, returned trees and error classes compared in Coq; identity-level purity of inputs and observation features by oracle.',
     note='Trusted: Coq kernel, vm_compute, harness (program interpreter ProgBase), jaxcompat. Not in the program grammar: setup-style modules, bind/unbind, methods other than __call__; '
-         'the sow/perturb-do-not-change-the-output clause is checked by oracle, not proved. Object identity of inputs is oracle-only. No axioms.',
-    technique='Coq proof (frame invariant by induction over the fuelled interpreter) + per-run model-vs-implementation correspondence by vm_compute',
+         'capture_intermediates is checked by oracle only. Object identity of inputs is oracle-only. No axioms.',
+    technique='Coq proof (frame invariant and two-run non-interference simulation by induction over the fuelled interpreter) + per-run model-vs-implementation correspondence by vm_compute',
     ref='DESIGN.md section 5, C01'),
   'C02': dict(
-    text='PARTIAL. On the Linen reference semantics of C01: proved for all states - a clash between two submodules, a submodule and a variable, or two variables of one collection is '
-         'NameInUse while the same name in two collections is allowed; a missing parameter under an immutable params collection raises (ScopeParamNotFound / ScopeCollectionNotFound) and a '
-         'wrongly shaped one raises ScopeParamShapeError, never a re-initialisation; the k-th unnamed child of class K is named K_k under the parent path. The remaining sentences (apply on '
-         'init\'s variables needs no initialisation, keeps the paths and reproduces the output; a child applied on its sub-tree equals the child inside a parent; eval_shape / jit / lazy_init '
-         'give the same structure, shapes and dtypes) are decided per run by the correspondence (the executable model predicts each of these runs) and by implementation oracles.',
-    note='Trusted: Coq kernel, vm_compute, harness, jaxcompat. Not proved: the two-run simulation lemmas (init vs apply, standalone child) and shape-parametricity. Not in the program '
-         'grammar: setup-style modules, bind/unbind, lists of submodules, share_scope. lazy_init is only compared for programs without input-dependent variable writes (documented '
-         'LazyInitError). No axioms.',
-    technique='Coq proof of the step-level facts + per-run model-vs-implementation correspondence by vm_compute + implementation oracles',
+    text='PARTIAL. On the Linen reference semantics of C01, proved for all programs, states and inputs: the variables returned by init are what apply consumes - for every module program that '
+         'declares, sows and perturbs but never overwrites a variable, re-running it on the variables its first run left (any `mutable`, any starting variables, [] for init) with the same '
+         'input and nothing mutable returns the same output, finds every parameter and variable, runs no initialiser and returns the variables unchanged (a two-run simulation: values '
+         'read the second time are the values read or created the first time, because declarations, sow and perturb only extend the tree; refuted with a witness for programs that '
+         'overwrite); a clash between two submodules, a submodule and a variable, or two variables of one collection is NameInUse while the same name in two collections is allowed; a missing '
+         'parameter under an immutable params collection raises (ScopeParamNotFound / ScopeCollectionNotFound) and a wrongly shaped one raises ScopeParamShapeError, never a '
+         're-initialisation; the k-th unnamed child of class K is named K_k under the parent path. The remaining sentences (a child applied on its sub-tree equals the child inside a parent; '
+         'eval_shape / jit / lazy_init give the same structure, shapes and dtypes) are decided per run by the correspondence (the executable model predicts each of these runs) and by '
+         'implementation oracles.',
+    note='Trusted: Coq kernel, vm_compute, harness, jaxcompat. Not proved: the standalone-child simulation and shape-parametricity. A write below a leaf (a variable where a scope '
+         'dict is expected) is an error in the model as in the code. Not in the program grammar: setup-style modules, bind/unbind, lists of submodules, share_scope. lazy_init is only '
+         'compared for programs without input-dependent variable writes (documented LazyInitError). No axioms.',
+    technique='Coq proof (two-run simulation over the fuelled interpreter, tree-extension invariant, step-level facts) + per-run model-vs-implementation correspondence by vm_compute + implementation oracles',
     ref='DESIGN.md section 5, C02'),
   'C03': dict(
     text='A Gallina model of flax.nnx.graph written from the code (flatten with the identity-keyed ref_index and back references, unflatten with create-empty-then-fill, first-match split, '
@@ -117,11 +123,15 @@ CLAIMED = {
   'C10': dict(
     text='Theorems about a Gallina model of flax.serialization written from the code (to_state_dict/from_state_dict with the dict, FrozenDict, list, tuple, '
          'namedtuple and struct-dataclass handlers, str(i) index keys, _chunk/_unchunk and their tree drivers, ext packing of arrays/np scalars/complex, and '
-         'msgpack-python\'s encoder): from_state_dict(t, to_state_dict t) = t for every tree; unchunk(chunk th s) = s for every threshold (hence threshold '
-         'independence); restoring is invariant under permutation of the saved entries; missing keys, length and field-name mismatches return the path-naming '
-         'error. Tied to /repo per run: the model is evaluated in Coq on the real state dicts, the exact bytes of to_bytes, restore results and errors.',
-    note='Trusted: Coq kernel, vm_compute, harness, jaxcompat, msgpack-python\'s decoder, numpy buffer semantics. The wire decoder is not modelled (bytes are compared '
-         'one way: Coq encoder = packb output). F2 (big-endian arrays) fixed in /repo. No axioms.',
+         'msgpack-python\'s encoder and decoder, _msgpack_ext_unpack / _ndarray_from_bytes, msgpack_restore, from_bytes): from_state_dict(t, to_state_dict t) = t for every tree; '
+         'unchunk(chunk th s) = s for every threshold (hence threshold independence); decode(encode v ++ rest) = (v, rest) for every msgpack value within the format\'s limits '
+         '(all ten integer formats, fix / 8 / 16 / 32-bit headers, fixext and ext, nested arrays and maps), so trailing bytes are rejected; msgpack_restore(msgpack_serialize s) = s and '
+         'from_bytes(t, to_bytes t) = t for every tree and every threshold; restoring is invariant under permutation of the saved entries; missing keys, length and field-name '
+         'mismatches return the path-naming error. Tied to /repo per run: the model is evaluated in Coq on the real state dicts, the exact bytes of to_bytes (encoder), the decoder '
+         'on those real bytes, on strict prefixes and with a trailing byte against msgpack_restore, restore results and errors.',
+    note='Trusted: Coq kernel, vm_compute, harness, jaxcompat, numpy buffer semantics (tobytes / frombuffer / reshape / itemsize table). msgpack-python is modelled in both '
+         'directions for the formats flax emits (float32, 0xc1, lists and non-string keys at state-dict level are None = outside the model) and compared byte-for-byte per run. '
+         'F2 (big-endian arrays) fixed in /repo. No axioms.',
     technique='Coq proof (nested induction over pytrees, list/arith lemmas) + per-run byte-exact model-vs-implementation correspondence by vm_compute',
     ref='DESIGN.md section 5, C10'),
   'C11': dict(
